@@ -254,6 +254,9 @@ func checkEditCase(c editCase, rec *Rec) error {
 		if !eqInts(V, op.V) {
 			return fmt.Errorf("op %d: %s modified its argument slice", step, op.Kind)
 		}
+		for i := range V { // the caller refills its buffer: the graphs must not have kept a reference to it
+			V[i] = 0
+		}
 		isEdit := op.Kind != "copy" && op.Kind != "induced"
 		if isEdit && derived[op.Slot] {
 			editAfterDerive = true
